@@ -45,6 +45,7 @@ type Prog struct {
 	combs       map[*types.Func]map[int]Comb
 	combMissing []string
 	mayWrite    map[*ssa.Function]map[*types.Var]bool
+	initOnly    map[*types.Var]bool
 	ctxCache    *ctxInfo
 	fuzzy       []string // anchors resolved to a renamed object
 }
@@ -698,25 +699,93 @@ func similarName(want string, cands []string) int {
 		return s
 	}
 	w := norm(want)
-	hit := -1
-	n := 0
 	for i, c := range cands {
 		if norm(c) == w {
 			return i
 		}
 	}
+	// score every candidate; the best one wins when it is strictly better than the rest
+	// (direct -> directCount although indirectCount and indirectSentCount contain "direct" too)
+	score := func(cn string) int {
+		d := len(cn) - len(w)
+		if d < 0 {
+			d = -d
+		}
+		if len(w) >= 4 && len(cn) >= 4 {
+			switch {
+			case strings.HasPrefix(cn, w) || strings.HasSuffix(cn, w):
+				return 500 - d
+			case strings.HasPrefix(w, cn) || strings.HasSuffix(w, cn):
+				return 400 - d
+			case strings.Contains(cn, w) || strings.Contains(w, cn):
+				return 300 - d
+			}
+		}
+		return 0
+	}
+	// one word inserted or dropped (addCount -> addSubCount): a flat score, so that two such candidates tie
+	// (removeCount -> removeDirectCount / removeIndirectCount is a family, resolved by FnFamily)
+	words := func(s string) []string {
+		var out []string
+		cur := ""
+		for i, r := range s {
+			if i > 0 && r >= 'A' && r <= 'Z' && cur != "" {
+				out = append(out, strings.ToLower(cur))
+				cur = ""
+			}
+			cur += string(r)
+		}
+		return append(out, strings.ToLower(cur))
+	}
+	oneMore := func(long, short []string) bool {
+		if len(long) != len(short)+1 || len(short) < 2 {
+			return false
+		}
+		for skip := range long {
+			ok := true
+			k := 0
+			for i, x := range long {
+				if i == skip {
+					continue
+				}
+				if x != short[k] {
+					ok = false
+					break
+				}
+				k++
+			}
+			if ok {
+				return true
+			}
+		}
+		return false
+	}
+	ww := words(want)
+	best, second, hit := 0, 0, -1
 	for i, c := range cands {
-		cn := norm(c)
-		if len(w) >= 4 && len(cn) >= 4 && (strings.Contains(cn, w) || strings.Contains(w, cn)) {
-			hit = i
-			n++
+		sc := score(norm(c))
+		if sc == 0 {
+			if cw := words(c); oneMore(cw, ww) {
+				sc = 250
+			} else if oneMore(ww, cw) {
+				sc = 240
+			}
+		}
+		if sc > best {
+			best, second, hit = sc, best, i
+		} else if sc > second {
+			second = sc
 		}
 	}
-	if n == 1 {
+	if hit >= 0 && best > second {
 		return hit
 	}
-	if n == 0 && len(w) >= 4 {
+	if hit >= 0 {
+		return -1 // two equally good candidates
+	}
+	if len(w) >= 4 {
 		// unique candidate sharing a prefix of at least four characters
+		n := 0
 		for i, c := range cands {
 			cn := norm(c)
 			k := 0
@@ -735,7 +804,6 @@ func similarName(want string, cands []string) int {
 	return -1
 }
 
-// Method looks up a method (concrete or interface) "pkg.Type.Method".
 func (p *Prog) Method(q string) *types.Func {
 	i := strings.LastIndexByte(q, '.')
 	if i < 0 {
